@@ -17,6 +17,7 @@ type seg struct {
 	base *bnode
 	off  *Term
 	n    *Term
+	val  *Term // single byte given by a term (from an element store); base == nil
 }
 
 // prove reports whether the path condition implies c (one unsat query at most, memoised).
@@ -83,13 +84,25 @@ func (e *Eng) rope(n *bnode, a, ln *Term, budget *int) ([]seg, bool) {
 		return nil, false
 	}
 	if isLeaf(n) {
-		return []seg{{n, a, ln}}, true
+		return []seg{{base: n, off: a, n: ln}}, true
 	}
 	b := tb.Add(a, ln)
 	switch n.kind {
 	case nkStore:
 		if e.prove(tb.Or(tb.Ult(n.idx, a), tb.Ule(b, n.idx))) {
 			return e.rope(n.prev, a, ln, budget)
+		}
+		if e.prove(tb.And(tb.Ule(a, n.idx), tb.Ult(n.idx, b))) {
+			left, ok := e.rope(n.prev, a, tb.Sub(n.idx, a), budget)
+			if !ok {
+				return nil, false
+			}
+			next := tb.Add(n.idx, tb.I64(1))
+			right, ok := e.rope(n.prev, next, tb.Sub(b, next), budget)
+			if !ok {
+				return nil, false
+			}
+			return append(append(left, seg{val: n.val, n: tb.I64(1)}), right...), true
 		}
 		return nil, false
 	case nkCopy:
@@ -152,7 +165,7 @@ func (e *Eng) normRope(r []seg) []seg {
 		if e.path.binds.rewrite(s.n, tb).IsConst() && e.path.binds.rewrite(s.n, tb).C == 0 {
 			continue
 		}
-		if len(out) > 0 {
+		if len(out) > 0 && s.val == nil && out[len(out)-1].val == nil {
 			l := &out[len(out)-1]
 			if l.base == s.base || (l.base.kind == nkZero && s.base.kind == nkZero) {
 				if s.base.kind == nkZero || tb.Add(l.off, l.n) == s.off {
@@ -204,6 +217,20 @@ func (e *Eng) ropeEqual(x, y SliceVal) bool {
 	}
 	for i := range rx {
 		a, b := rx[i], ry[i]
+		if a.val != nil || b.val != nil {
+			va, vb := a.val, b.val
+			// a single byte of a leaf segment can match a stored byte
+			if va == nil && a.n.IsConst() && a.n.C == 1 {
+				va = e.bread(a.base, a.off)
+			}
+			if vb == nil && b.n.IsConst() && b.n.C == 1 {
+				vb = e.bread(b.base, b.off)
+			}
+			if va == nil || vb == nil || !e.prove(tb.Eq(va, vb)) {
+				return false
+			}
+			continue
+		}
 		sameBase := a.base == b.base || (a.base.kind == nkZero && b.base.kind == nkZero) ||
 			(a.base.kind == nkArr && b.base.kind == nkArr && a.base.arr == b.base.arr)
 		if !sameBase {
